@@ -53,6 +53,27 @@ def c05_tables(tier, seed):
             pts = sorted(set([a, b] + [p for p in Ts if min(a, b) < p < max(a, b)]))
             tot = sum(quad(f, p, q, epsabs=1e-12, epsrel=1e-12)[0] for p, q in zip(pts, pts[1:]))
             return tot if a <= b else -tot
+        # the same correlation ASSEMBLED BY MERGES (as a library with includes does): table first and reference values later, reference
+        # values first and table later, or wrong reference values overwritten afterwards
+        recipe = rnd.choice(['table-then-refs', 'refs-then-table', 'overwrite-refs', 'H-then-S'])
+        tab, rg = {float(Ts[i]): Cps[i] for i in order}, (float(lo), float(hi))
+        try:
+            with real.quiet():
+                if recipe == 'table-then-refs':
+                    cm = ThermochemIncomplete(None, None, tab, float(T_ref), rg)
+                    cm.update(ThermochemIncomplete(H, S, {}, float(T_ref), None))
+                elif recipe == 'refs-then-table':
+                    cm = ThermochemIncomplete(H, S, {}, float(T_ref), None)
+                    cm.update(ThermochemIncomplete(None, None, tab, float(T_ref), rg))
+                elif recipe == 'overwrite-refs':
+                    cm = ThermochemIncomplete(H + 7.0, S + 3.0, tab, float(T_ref), rg)
+                    cm.update(ThermochemIncomplete(H, S, {}, float(T_ref), None), overwrite=True)
+                else:
+                    cm = ThermochemIncomplete(H, None, tab, float(T_ref), rg)
+                    cm.update(ThermochemIncomplete(None, S, {}, float(T_ref), None))
+        except Exception as e:    # noqa
+            viol.append({'id': 'merge-%d' % t, 'input': {'recipe': recipe, 'Ts': Ts, 'T_ref': T_ref, 'range': [lo, hi]}, 'observed': repr(e), 'expected': 'a correlation'})
+            cm = None
         evalT = [lo, hi, T_ref, Ts[0], Ts[-1]] + [rnd.uniform(lo, hi) for _ in range(3)]
         for T in evalT:
             n += 1
@@ -60,11 +81,20 @@ def c05_tables(tier, seed):
             with real.quiet():
                 h, s_, c_ = c.get_HoRT(T), c.get_SoR(T), c.get_CpoR(T)
                 g = ci.get_GoRT(T)
+                if cm is not None:
+                    hm, sm = real.outcome(cm.get_HoRT, T), real.outcome(cm.get_SoR, T)
+                    wH, wS = (H * T_ref + integ(cp, T_ref, T)) / T, S + integ(lambda x: cp(x) / x, T_ref, T)
+                    if hm[0] != 'ok' or not real.close(hm[1], wH, 1e-7, 1e-7):
+                        bad.append(('H/RT of the correlation assembled by ' + recipe, hm, wH))
+                    if sm[0] != 'ok' or not real.close(sm[1], wS, 1e-5, 3e-4):
+                        bad.append(('S/R of the correlation assembled by ' + recipe, sm, wS))
             wantH = (H * T_ref + integ(cp, T_ref, T)) / T
             wantS = S + integ(lambda x: cp(x) / x, T_ref, T)
             if not real.close(h, wantH, 1e-7, 1e-7):
                 bad.append(('H/RT', h, wantH))
-            if not real.close(s_, wantS, 1e-7, 1e-7):
+            # the code integrates Cp/T with scipy.integrate.quad across the knots in one call (default tolerances): on steep splines its
+            # error reaches ~1e-4 absolute; the accuracy of quad is an assumption of C05, not an obligation
+            if not real.close(s_, wantS, 1e-5, 3e-4):
                 bad.append(('S/R', s_, wantS))
             if not real.close(c_, cp(T), 1e-9, 1e-9):
                 bad.append(('Cp/R', c_, cp(T)))
@@ -76,7 +106,7 @@ def c05_tables(tier, seed):
         if len(samples) < 3:
             samples.append({'Ts': [Ts[i] for i in order], 'T_ref': T_ref, 'range': [lo, hi]})
     return {'name': 'tables-vs-quadrature', 'evaluations': n, 'distinct_nontrivial': ntab, 'violations': viol, 'samples': samples,
-            'bound': '%d random tables of 1..16 points, shuffled supply order, 8 temperatures each, tolerance 1e-7' % ntab,
+            'bound': '%d random tables of 1..16 points, shuffled supply order, each also assembled by merges, 8 temperatures each, tolerance 1e-7 (S/R: 1e-5 rel + 3e-4 abs, quadrature)' % ntab,
             'rule': 'a case is a (table, temperature); tables distinct by construction'}
 
 
